@@ -72,7 +72,8 @@ def run(ctx):
     # R13.4: the -fwide-types build carries object-set identifier cells as INTEGER_t literals, the native build as long
     # constants; the literal must denote the same number (rule R18.2 evaluated for this property)
     from . import c18
-    return [r, r2, r13_3(ctx.prog("S"), tab), c18.r18_2(prog, rid="R13.4"), r13_5(prog, tab, scope), _r13_6(ctx), r13_7(ctx.prog("S"))]
+    return [r, r2, r13_3(ctx.prog("S"), tab), c18.r18_2(prog, rid="R13.4"), r13_5(prog, tab, scope), _r13_6(ctx), r13_7(ctx.prog("S")),
+            c06.r06_7(ctx.prog("S"), load_tables("c06"), rid="R13.8")]
 
 
 def _r13_6(ctx):
